@@ -45,7 +45,12 @@ class RunObs(object):
             self.kind = 'crash'
 
     def text(self):
-        return '%s %s out=%r err=%r diag=%r' % (self.kind, self.status, self.out[:300], self.err[:300], self.diag[:120])
+        import hashlib
+
+        def show(b):
+            # long texts: head, length and digest (two different texts never render the same)
+            return repr(b) if len(b) <= 300 else '%r...[%d bytes, md5 %s]' % (b[:300], len(b), hashlib.md5(b).hexdigest()[:12])
+        return '%s %s out=%s err=%s diag=%r' % (self.kind, self.status, show(self.out), show(self.err), self.diag[:120])
 
 
 def first_line(b):
@@ -137,6 +142,13 @@ SPELLINGS = [(None, []), (0, ['-O0']), (1, ['-O1']), (2, ['-O2']), (2, ['-O', '2
              (2, ['PTY', '-O2']), (0, ['PTY', '-O0']), (None, ['PTY'])]
 
 
+def _render(r):
+    import hashlib
+    o, e = r[1] or b'', r[2]
+    return 'status %r out ...%r [%d bytes, md5 %s] err ...%r [%d bytes, md5 %s]' % (
+        r[0], o[-120:], len(o), hashlib.md5(o).hexdigest()[:12], e[-120:], len(e), hashlib.md5(e).hexdigest()[:12])
+
+
 def cli_task(texts):
     """the real binary, the level given in every spelling the command line accepts (and not at all): same behaviour as -O0"""
     import subprocess
@@ -178,8 +190,7 @@ def cli_task(texts):
             if not same:
                 st.violate(Violation('C02', 'optdiff', 'cli:%s' % (' '.join(opts) or 'no-flag'),
                                      {'kind': 'cli', 'prog': text, 'opts': opts},
-                                     'status %r out %r err %r' % (ref[0], (ref[1] or b'')[-120:], ref[2][-120:]),
-                                     'status %r out %r err %r' % (got[0], (got[1] or b'')[-120:], got[2][-120:])))
+                                     _render(ref), _render(got)))
         st.inc('programs')
     return st
 
